@@ -1563,3 +1563,49 @@ def arr_mean_m(I, recv, args, kwargs):
 
 def _arr_mean_axis(I, recv, args, kwargs):
     raise Undecided("ndarray.mean with arguments")
+
+
+# ----------------------------------------------------------------------------- further models (so that more code variants stay decidable)
+
+@lib("numpy.unique")
+def np_unique(I, args, kwargs):
+    """np.unique(a): the distinct values of a 1-d numeric array, sorted increasingly"""
+    if kwargs or len(args) != 1:
+        raise Undecided("np.unique with options")
+    a = to_arr(I, args[0])
+    if a.ndim != 1 or a.dtype == "obj":
+        raise Undecided("np.unique of a non 1-d numeric array")
+    ctx = I.ctx
+    S = _spec()
+    n = a.len
+    if not is_sym(n) and n == 0:
+        return SArr((0,), a.fn, a.dtype, "ndarray")
+    k = ctx.fresh_int("n_unique")
+    sort = z3.IntSort() if a.dtype == "int" else z3.RealSort()
+    u = ctx.fresh_fun("unique", z3.IntSort(), sort)
+    pos = ctx.fresh_fun("unique_pos", z3.IntSort(), z3.IntSort())       # where a value of a sits in u
+    src = ctx.fresh_fun("unique_src", z3.IntSort(), z3.IntSort())       # where a value of u comes from in a
+    val = (lambda x: to_z3(x)) if a.dtype == "int" else (lambda x: ops.as_real(x))
+    ctx.assume(And(k >= 0, k <= to_z3(n), Implies(to_z3(n) >= 1, k >= 1)))
+    ctx.assume(S.ForAll2(lambda i, j: u(to_z3(i)) < u(to_z3(j)), 0, k))                                        # strictly increasing
+    ctx.assume(S.ForAll(lambda i: And(pos(to_z3(i)) >= 0, pos(to_z3(i)) < k, u(pos(to_z3(i))) == val(a.fn(i))), 0, n, "ui"))
+    ctx.assume(S.ForAll(lambda j: And(src(to_z3(j)) >= 0, src(to_z3(j)) < to_z3(n), u(to_z3(j)) == val(a.fn(src(to_z3(j))))), 0, k, "uj"))
+    USED.add("np.unique(a): strictly increasing, same set of values as a")
+    return SArr((k,), lambda i: u(to_z3(i)), a.dtype, "ndarray")
+
+
+@lib("numpy.zeros_like", "numpy.ones_like")
+def np_zeros_like(I, args, kwargs):
+    a = to_arr(I, args[0])
+    v = Fraction(1) if I.cur_node.func.attr == "ones_like" else Fraction(0)
+    return SArr(a.shape, lambda *i: v, "real", "ndarray")
+
+
+@lib("pandas.api.types.is_integer_dtype")
+def pd_is_integer_dtype(I, args, kwargs):
+    v = args[0]
+    if isinstance(v, SSeries):
+        v = v.values
+    if isinstance(v, SArr):
+        return v.dtype == "int"
+    raise Undecided("is_integer_dtype of a non-array value")
